@@ -36,7 +36,7 @@ package scheduler
 // deduplication map, and only when the task is final (not on the retry on the
 // largest size class).
 //@ func (*task).complete
-//@   props C03 C01 C05 C07
+//@   props C03 C01 C05 C07 C04
 //@   ensures the-learner-of-the-task-gets-exactly-one-verdict:
 //@             old(t.executeResponse) == nil && old(t.initialSizeClassLearner) != nil ==>
 //@             lrncalls(old(t.initialSizeClassLearner)) == old(lrncalls(t.initialSizeClassLearner)) + 1
@@ -46,6 +46,7 @@ package scheduler
 //@             (isnew(backgroundTask) && backgroundTask.initialSizeClassLearner == backgroundInitialSizeClassLearner)
 //@   loop 5 invariant transplanted-operations-are-homed-in-the-largest-size-class:
 //@             forall k *invocation :: (k in t.operations) ==> t.operations[k].invocation.sizeClassQueue == largestSCQ
+//@   at call schedule#2 assert a-retried-task-is-queued-with-the-expected-duration-of-the-retry: t.expectedDuration == expectedDuration
 //@   at call schedule#2 assert retried-operations-are-homed-in-the-largest-size-class:
 //@             forall k *invocation :: (k in t.operations) ==> t.operations[k].invocation.sizeClassQueue == largestSCQ
 //@   at call registerExecutingStageFinished#1 assert task-and-worker-are-detached-from-each-other:
@@ -202,7 +203,8 @@ package scheduler
 //@   ensures only-unused-non-root-invocations-are-removed: r0 ==> i.parent != nil && i.idleWorkersCount == 0
 //@   ensures unused-non-root-invocations-are-removed: !r0 ==> unchanged()
 //@ func (*operation).remove
-//@   props C06 C01 C04
+//@   props C06 C01 C04 C03
+//@   at call complete#1 assert only-the-last-operation-of-a-task-cancels-it: old(len(o.task.operations)) == 1 && arg0 == old(o.task) && !arg3
 //@   ensures abandoned-operation-is-forgotten-by-its-task: old(len(o.task.operations)) != 1 ==> !(old(o.invocation) in old(o.task).operations)
 //@   ensures shared-executing-task-gives-back-the-share-of-the-abandoned-invocation:
 //@             old(len(o.task.operations)) != 1 && old(o.task.executeResponse) == nil && old(o.task.currentWorker) != nil ==> execdec(old(o.invocation)) == 1
@@ -273,7 +275,8 @@ package scheduler
 //@   ensures head-of-own-queue-first: len(i.queuedOperations) > 0 ==> i.firstQueuedOperationPriority == i.queuedOperations[0].priority
 //@   ensures else-head-of-best-child: len(i.queuedOperations) == 0 && len(i.queuedChildren) > 0 ==> i.firstQueuedOperationPriority == i.queuedChildren[0].firstQueuedOperationPriority
 //@ func (*operation).enqueue
-//@   props C04
+//@   props C04 C01
+//@   ensures every-ancestor-up-to-the-root-knows-about-the-queued-operation: i.parent == nil
 //@   at call heapPushOrFix#1 assert resorted-with-a-refreshed-head-priority: priorefreshed(i) == 1 && arg0 == &i.parent.queuedChildren && arg1 == i.queuedChildrenIndex && arg2 == i
 
 // ---------------------------------------------------------------------------
@@ -283,9 +286,6 @@ package scheduler
 // retried on the largest size class, every one of its operations must
 // therefore be re-homed under an invocation of that size class queue, not
 // merely be listed under such an invocation in t.operations.
-//@ func (*platformQueue).addSizeClassQueue
-//@   props C05
-//@   ensures root-invocation-belongs-to-the-new-queue: r0.rootInvocation.sizeClassQueue == r0
 //@ func (*sizeClassQueue).getOrCreateInvocation
 //@   props C05
 //@   at call incrementInvocationsCreatedTotal#1 assert new-invocations-belong-to-this-queue: iChild.sizeClassQueue == scq && iChild.parent == i
@@ -312,3 +312,45 @@ package scheduler
 //@   props C01
 //@   requires executeResponse != nil
 //@   at call complete#1 assert completes-the-task-the-worker-was-given: arg0 == w.currentTask && arg3
+
+// ---------------------------------------------------------------------------
+// Heap helpers (C04, C01): which container/heap operation is used is decided
+// by the index / the counter exactly as documented; index 0 is a position in
+// the heap like any other.
+//@ func heapMaybeFix
+//@   props C04
+//@   ensures an-element-that-is-in-the-heap-is-always-re-sorted: i >= 0 ==> heapops(2) == old(heapops(2)) + 1
+//@   ensures an-element-that-is-not-in-the-heap-is-left-alone: i < 0 ==> heapops(2) == old(heapops(2)) && heapops(1) == old(heapops(1)) && heapops(3) == old(heapops(3))
+//@ func heapPushOrFix
+//@   props C04
+//@   ensures pushed-when-absent-re-sorted-when-present: (i < 0 ==> heapops(1) == old(heapops(1)) + 1 && heapops(2) == old(heapops(2))) && (i >= 0 ==> heapops(2) == old(heapops(2)) + 1 && heapops(1) == old(heapops(1)))
+//@ func heapRemoveOrFix
+//@   props C04 C01
+//@   ensures removed-when-nothing-is-left-re-sorted-otherwise: (count > 0 ==> heapops(2) == old(heapops(2)) + 1 && heapops(3) == old(heapops(3))) && (count <= 0 ==> heapops(3) == old(heapops(3)) + 1 && heapops(2) == old(heapops(2)))
+
+// When a size class queue disappears (its workers are gone) or its operations
+// are killed, every queued operation below the invocation is cancelled: first
+// all child invocations are emptied, then the operations queued directly.
+//@ func (*invocation).cancelAllQueuedOperations
+//@   props C01 C02 C06
+//@   loop 1 entry every-child-invocation-was-emptied-first: len(i.queuedChildren) == 0
+//@   at call complete#1 assert cancels-a-directly-queued-operation-of-this-invocation: arg0 == i.queuedOperations[len(i.queuedOperations)-1].task && !arg3
+//@   ensures nothing-stays-queued-directly: len(i.queuedOperations) == 0
+
+// A size class queue that a worker creates is inserted at the same position in
+// both lists of the platform queue; the entries behind it shift by one in both.
+//@ func (*platformQueue).addSizeClassQueue
+//@   props C05
+//@   ensures root-invocation-belongs-to-the-new-queue: r0.rootInvocation.sizeClassQueue == r0
+//@   ensures inserted-at-the-same-position-in-both-lists:
+//@             len(pq.sizeClasses) == old(len(pq.sizeClasses)) + 1 && len(pq.sizeClassQueues) == old(len(pq.sizeClassQueues)) + 1 &&
+//@             pq.sizeClasses[i] == sizeClass && pq.sizeClassQueues[i] == r0
+//@   ensures queues-before-the-new-one-stay: forall j int :: 0 <= j && j < i ==> pq.sizeClassQueues[j] == old(pq.sizeClassQueues[j])
+//@   ensures queues-behind-the-new-one-shift-by-one: forall j int :: i < j && j < len(pq.sizeClassQueues) ==> pq.sizeClassQueues[j] == old(pq.sizeClassQueues[j-1])
+
+// Removing a drain always wakes the workers that are parked as drained: the
+// channel they wait on is closed and replaced by a new, open one.
+//@ func (*InMemoryBuildQueue).RemoveDrain$1
+//@   props C05
+//@   ensures parked-workers-are-woken-whenever-a-drain-is-removed: closed(old(scq.undrainWakeup)) && scq.undrainWakeup != old(scq.undrainWakeup) && !closed(scq.undrainWakeup)
+//@   ensures the-drain-is-gone: !(drainKey in scq.drains)
